@@ -275,6 +275,61 @@ fn check_fault(ctx: &Ctx, b: &Base, pos: &Pos, kind: &str, ins: &[Node]) {
     }
 }
 
+fn leading_blank_lines(rng: &mut Rng) -> (String, usize) {
+    let k = rng.usize(4);
+    let mut s = String::new();
+    for _ in 0..k {
+        s.push_str(*rng.pick(&["\n", "  \n", "\t\n", " \t \n"]));
+    }
+    (s, k)
+}
+
+/// The faulty programs once more as files: the whole program as a file that begins with blank lines, and
+/// with a run of top-level lines around the fault moved into an included file that begins with blank lines.
+/// A line number counts the lines of the file the line stands in, blank ones included.
+fn check_faults_in_files(ctx: &Ctx, b: &Base, rng: &mut Rng) {
+    let n = b.nodes.len();
+    for (kind, ins) in faults(&b.labels, rng) {
+        if kind == "duplicate-label" {
+            continue;
+        }
+        let i = 1 + rng.usize(n);
+        let pos = Pos::Top(i);
+        let faulty = insert_at(&b.nodes, &pos, &ins);
+        let p = line_of(&b.nodes, &pos);
+        let whole = ir::print_canonical(&faulty);
+        if whole.to_lowercase().contains(".exit") {
+            continue;
+        }
+        let (lead1, k1) = leading_blank_lines(rng);
+        let (lead2, k2) = leading_blank_lines(rng);
+        let a = 1 + rng.usize(i);
+        let e = i + ins.len() + rng.usize(faulty.len() - (i + ins.len()) + 1);
+        let before = layout::count_lines(&faulty[..a]);
+        let main_split = format!("{}{}.include \"part.inc\"\n{}", lead1, ir::print_canonical(&faulty[..a]), ir::print_canonical(&faulty[e..]));
+        let part = format!("{}{}", lead2, ir::print_canonical(&faulty[a..e]));
+        for (shape, main, part, want) in [
+            ("file-begins-with-blank-lines", format!("{}{}", lead1, whole), String::new(), p + k1),
+            ("in-included-file", main_split, part, p - before + k2),
+        ] {
+            let out = fw::build_main_with_part(&main, &part);
+            ctx.eval(1);
+            ctx.count(&format!("fault_in_files:{}", shape), 1);
+            let replay = json!({"main": main, "part": part, "fault_kind": kind, "fault_line": want, "context": shape, "observed": out.brief()});
+            match &out {
+                Outcome::Err(e) if e.starts_with("HARNESS:") => ctx.inconclusive(e.clone()),
+                Outcome::Ok(_) => ctx.violation(format!("diag/{}/{}/build-succeeded", kind, shape), format!("line {} is at fault but the build succeeded", want), replay),
+                Outcome::Panic(pn) => ctx.violation(format!("diag/{}/{}/panic", kind, shape), fw::clip(pn, 120), replay),
+                Outcome::Err(e) => {
+                    if !has_line_token(e, want) {
+                        ctx.violation(format!("diag/{}/{}/line-not-named", kind, shape), format!("line {} of its file is at fault but the error does not name it: {}", want, fw::clip(e, 160)), replay);
+                    }
+                }
+            }
+        }
+    }
+}
+
 /// A second definition of an existing label appended behind a segment boundary (`.org`, `.dseg`,
 /// `.eseg`, `.eseg` + `.cseg`): still a duplicate, whichever segment the first definition lives in.
 fn check_duplicate_across_segments(ctx: &Ctx, b: &Base, rng: &mut Rng) {
@@ -479,6 +534,49 @@ fn check_messages(ctx: &Ctx, b: &Base, rng: &mut Rng) {
                     ctx.violation("diag/messages/kind", format!("messages {:?} do not distinguish warnings from messages", a.messages), replay);
                 } else {
                     ctx.count("message_events_checked", a.messages.len() as u64);
+                    // the same program as files: a run of top-level lines in an included file, both files beginning
+                    // with blank lines - every message still arrives, in source order, with the number of its
+                    // line in the file it stands in
+                    if !src.to_lowercase().contains(".exit") && nodes.len() >= 3 {
+                        let (lead1, k1) = leading_blank_lines(rng);
+                        let (lead2, k2) = leading_blank_lines(rng);
+                        let x = 1 + rng.usize(nodes.len() - 1);
+                        let y = x + 1 + rng.usize(nodes.len() - x);
+                        let l0 = layout::count_lines(&nodes[..x]);
+                        let lp = layout::count_lines(&nodes[x..y]);
+                        let main = format!("{}{}.include \"part.inc\"\n{}", lead1, ir::print_canonical(&nodes[..x]), ir::print_canonical(&nodes[y..]));
+                        let part = format!("{}{}", lead2, ir::print_canonical(&nodes[x..y]));
+                        let want: Vec<(usize, String, bool)> = r
+                            .messages
+                            .iter()
+                            .map(|m| {
+                                let g = m.line;
+                                let l = if g <= l0 { k1 + g } else if g <= l0 + lp { k2 + g - l0 } else { k1 + l0 + 1 + g - l0 - lp };
+                                (l, m.text.clone(), matches!(m.kind, MsgKind::Warning))
+                            })
+                            .collect();
+                        let fo = fw::build_main_with_part(&main, &part);
+                        ctx.eval(1);
+                        ctx.count("message_programs_as_files", 1);
+                        let in_part = r.messages.iter().filter(|m| m.line > l0 && m.line <= l0 + lp).count();
+                        ctx.count("message_events_in_included_files", in_part as u64);
+                        let good = match &fo {
+                            Outcome::Ok(f) => f.messages.len() == want.len() && f.messages.iter().zip(&want).all(|(m, (l, t, w))| m.contains(t.as_str()) && has_line_token(m, *l) && if *w { m.to_lowercase().contains("warn") } else { !m.to_lowercase().starts_with("warn") }),
+                            Outcome::Err(e) if e.starts_with("HARNESS:") => {
+                                ctx.inconclusive(e.clone());
+                                true
+                            }
+                            _ => false,
+                        };
+                        if !good {
+                            let expected: Vec<Value> = want.iter().map(|(l, t, w)| json!({"line": l, "text": t, "warning": w})).collect();
+                            ctx.violation(
+                                if in_part > 0 { "diag/messages/in-files/included-file" } else { "diag/messages/in-files/main-file" },
+                                format!("messages {:?}, expected (line in its file, text) {:?}", fo.brief(), want.iter().map(|(l, t, _)| (*l, t.clone())).collect::<Vec<_>>()),
+                                json!({"main": main, "part": part, "kind": "messages", "expected": expected, "observed": fo.brief()}),
+                            );
+                        }
+                    }
                 }
             }
         }
@@ -514,6 +612,7 @@ pub fn run(ctx: &Ctx) -> i32 {
         ctx.count("positions", poss.len() as u64);
         check_duplicate_across_segments(ctx, &b, &mut rng);
         check_in_macro_body(ctx, &b, &mut rng);
+        check_faults_in_files(ctx, &b, &mut rng);
         for _ in 0..3 {
             check_messages(ctx, &b, &mut rng);
         }
@@ -533,12 +632,40 @@ pub fn run(ctx: &Ctx) -> i32 {
     }
     fw::finish(
         ctx,
-        "valid base programs of 5-40 lines (labels, instructions, data, .equ, .set, conditional blocks, three segments) x every insertion position on the assembling path (top level and inside the taken branch) x 24 kinds of single-line fault (syntax, unknown mnemonic/macro, register<->expression confusion, out-of-range immediate/register class/port/bit/displacement/relative target, operand count, undefined symbol in instruction/alias/data/.set/.if - also in an operand that cannot change the value (0 && x, 1 || x, 0 * x) -, duplicate label, out-of-range data, string in word directive, .error, division by zero): build must fail with an error containing the token `line: p`; per base every single-line fault kind once more inside the body of a macro (behind blank and comment-only lines, with and without parameters) that is called once, and a macro holding only .message/.warning lines (each must be reported with the number of the body line it is written on); per base 4 second definitions of an existing label appended behind a segment boundary (.org, .dseg, .eseg, .eseg then .cseg); plus 3 message placements per base (.message/.warning at top level and inside taken/untaken branches): images unchanged, message list equals the expected (text, line, order, kind distinguishable); distinct_nontrivial = distinct base programs; counters fault:* = faulty builds per kind",
+        "valid base programs of 5-40 lines (labels, instructions, data, .equ, .set, conditional blocks, three segments) x every insertion position on the assembling path (top level and inside the taken branch) x 24 kinds of single-line fault (syntax, unknown mnemonic/macro, register<->expression confusion, out-of-range immediate/register class/port/bit/displacement/relative target, operand count, undefined symbol in instruction/alias/data/.set/.if - also in an operand that cannot change the value (0 && x, 1 || x, 0 * x) -, duplicate label, out-of-range data, string in word directive, .error, division by zero): build must fail with an error containing the token `line: p`; per base every single-line fault kind once more inside the body of a macro (behind blank and comment-only lines, with and without parameters) that is called once, and a macro holding only .message/.warning lines (each must be reported with the number of the body line it is written on); per base 4 second definitions of an existing label appended behind a segment boundary (.org, .dseg, .eseg, .eseg then .cseg); per base every fault kind once more as files (the whole program as a file beginning with 0-3 blank lines; a run of top-level lines around the fault moved into an included file beginning with blank lines: the error names the line counted in the file it stands in); plus 3 message placements per base, each also split over a main and an included file, (.message/.warning at top level and inside taken/untaken branches): images unchanged, message list equals the expected (text, line, order, kind distinguishable); distinct_nontrivial = distinct base programs; counters fault:* = faulty builds per kind",
         &["every program starts with a comment line so p >= 2 (PEG errors embed `line: 1`); for a duplicate label either defining line is accepted", "a fault inside a macro body is attributed to the body line it is written on (the line at fault); the order of body messages relative to top-level messages is not checked"],
     )
 }
 
 pub fn replay(ctx: &Ctx, case: &Value) -> i32 {
+    if let (Some(main), Some(part)) = (case["main"].as_str(), case["part"].as_str()) {
+        let out = fw::build_main_with_part(main, part);
+        ctx.eval(1);
+        ctx.distinct(1);
+        ctx.distinct(2);
+        let bad = if let Some(exp) = case["expected"].as_array() {
+            match &out {
+                Outcome::Ok(a) => {
+                    !(a.messages.len() == exp.len()
+                        && a.messages.iter().zip(exp).all(|(m, e)| {
+                            let lower = m.to_lowercase();
+                            let kind_ok = if e["warning"].as_bool() == Some(true) { lower.contains("warn") } else { !lower.starts_with("warn") };
+                            m.contains(e["text"].as_str().unwrap_or("\u{0}")) && has_line_token(m, e["line"].as_u64().unwrap_or(0) as usize) && kind_ok
+                        }))
+                }
+                _ => true,
+            }
+        } else {
+            match &out {
+                Outcome::Err(e) => !has_line_token(e, case["fault_line"].as_u64().unwrap_or(0) as usize),
+                _ => true,
+            }
+        };
+        if bad {
+            ctx.violation("diag/replay", "the program built from files still deviates", case.clone());
+        }
+        return fw::finish(ctx, "replay", &[]);
+    }
     let src = case["source"].as_str().unwrap_or("");
     let out = fw::build_str(src);
     ctx.eval(1);
